@@ -149,7 +149,7 @@ def run(ctx):
         'CPython evaluates the generated expression as Core/Expr.v eval does (checked by the trace/verdict '
         'correspondence, not proved)',
     ]
-    regenerate(ctx)
+    ctx.safe_regenerate(regenerate)
     proof_err = prove_core(ctx, PROP)
     n = {'quick': 260, 'thorough': 6000}[ctx.tier]
     try:
@@ -168,7 +168,7 @@ def run(ctx):
 def replay(ctx, path):
     with open(path) as f:
         body = json.load(f)
-    regenerate(ctx)
+    ctx.safe_regenerate(regenerate)
     case = body['record'].get('case')
     if case:
         obs = C.run_impl_cases([case])
